@@ -355,7 +355,7 @@ func verifyFunc(prog *Program, fc *FuncContract) (res *FuncResult) {
 				// cells named in the modifies list are exempt
 				except := ""
 				for _, m := range fc.Modifies {
-					v, ok := e.tryResolve(old, env, m)
+					v, ok := e.resolveModifies(old, env, m)
 					if !ok || v.GT == nil {
 						continue
 					}
